@@ -14,7 +14,7 @@ DT = {"f64": torch.float64, "f32": torch.float32}
 def random_config(rng, wrappers=("interval",), allow_f32=True, levy=None, shapes=None, max_span=5.0):
     """A constructor configuration the documentation allows (JSON-serialisable dict)."""
     wrapper = rng.choice(list(wrappers))
-    shapes = shapes or [[], [3], [2, 3], [4, 2]]
+    shapes = shapes or [[], [3], [2, 3], [4, 2], [2, 3, 2], [1, 2], [3, 1]]
     cfg = {
         "wrapper": wrapper,
         "shape": rng.choice(shapes),
@@ -22,17 +22,23 @@ def random_config(rng, wrappers=("interval",), allow_f32=True, levy=None, shapes
         "dtype": "f32" if (allow_f32 and rng.random() < 0.12) else "f64",
         "entropy": rng.randrange(1, 2 ** 31 - 1),
     }
-    t0 = rng.choice([0.0, -1.5, 2.0, 0.25])
+    # boundary values of the seed: 0 is a legal entropy (falsy!), and numpy accepts arbitrarily large ints
+    r = rng.random()
+    if r < 0.06:
+        cfg["entropy"] = 0
+    elif r < 0.10:
+        cfg["entropy"] = 2 ** 40 + rng.randrange(2 ** 20)
+    t0 = rng.choice([0.0, -1.5, 2.0, 0.25, -0.5, -1.0])
     span = rng.choice([1.0, 0.37, max_span])
     cfg["t0"], cfg["t1"] = t0, t0 + span
     if wrapper == "interval" or wrapper == "reverse":
         halfway = rng.random() < 0.25
         cfg["halfway"] = halfway
         if halfway:
-            cfg["tol"] = rng.choice([1e-2, 1e-3, 1e-5, 1e-6])
+            cfg["tol"] = rng.choice([1e-2, 1e-3, 1e-5, 1e-6, 5e-4, 2.5e-3])
             cfg["dt"] = None
         else:
-            cfg["tol"] = rng.choice([0.0, 0.0, 0.0, 1e-3, 1e-6])
+            cfg["tol"] = rng.choice([0.0, 0.0, 0.0, 1e-3, 1e-6, 5e-4])
             dtm = rng.choice(["none", "none", "right", "big", "small"])
             cfg["dt_mode"] = dtm
             cfg["dt"] = None  # filled by history generator ("right" needs the step size)
@@ -44,7 +50,7 @@ def random_config(rng, wrappers=("interval",), allow_f32=True, levy=None, shapes
         cfg["tol"] = 0.0
     elif wrapper == "tree":
         cfg["levy"] = "none"
-        cfg["tol"] = rng.choice([1e-3, 1e-6, 1e-6])
+        cfg["tol"] = rng.choice([1e-3, 1e-6, 1e-6, 5e-4])
         cfg["supply"] = rng.choice(["none", "none", "W"])
     return cfg
 
@@ -62,11 +68,42 @@ def grid_round(cfg):
     return lambda x: min(max(x, t0), t1)
 
 
+def special_times(cfg):
+    """Boundary times of a configuration (base frame): the end points, exactly 0.0 / -0.0 when inside, dyadic
+    fractions of the interval (node boundaries in dyadic-tree mode), integers inside the interval."""
+    t0, t1 = cfg["t0"], cfg["t1"]
+    rd = grid_round(cfg)
+    out = [t0, t1]
+    if t0 <= 0.0 <= t1:
+        out += [0.0, -0.0]
+    for j in (1, 2, 3, 4):
+        for k in range(1, 2 ** j, 2):
+            out.append(rd(t0 + (t1 - t0) * k / 2 ** j))
+    out += [float(i) for i in range(int(math.ceil(t0)), int(math.floor(t1)) + 1)]
+    return out
+
+
+def pick_time(cfg, rng, p_special=0.2):
+    if rng.random() < p_special:
+        return rng.choice(special_times(cfg))
+    return grid_round(cfg)(rng.uniform(cfg["t0"], cfg["t1"]))
+
+
+def as_arg(t, rng):
+    """The documentation allows floats or 0-d tensors as times; ints are floats too. Same value, different type."""
+    r = rng.random()
+    if r < 0.08:
+        return torch.tensor(t, dtype=torch.float64)
+    if r < 0.12 and float(t).is_integer():
+        return int(t)
+    return t
+
+
 def build(cfg, step_hint=None):
     """Construct the real object(s). Returns (bm, base_interval, meta)."""
     dtype = DT[cfg["dtype"]]
     shape = tuple(cfg["shape"])
-    g = torch.Generator().manual_seed(cfg["entropy"] % (2 ** 31))
+    g = torch.Generator().manual_seed((cfg["entropy"] + 12345) % (2 ** 31))
     span = cfg["t1"] - cfg["t0"]
     W = H = None
     if cfg.get("supply") in ("W", "WH"):
@@ -143,7 +180,7 @@ def history(cfg, rng, kind=None, n=None, small=None):
     if kind == "random":
         n = n if n is not None else rng.choice([0, 3, 30, 150])
         for _ in range(n):
-            a, b = sorted([rd(rng.uniform(t0, t1)), rd(rng.uniform(t0, t1))])
+            a, b = sorted([pick_time(cfg, rng, 0.1), pick_time(cfg, rng, 0.1)])
             qs.append((a, b))
     elif kind in ("sweep", "sweep_srk"):
         n = n if n is not None else rng.choice([20, 130, 400])
